@@ -17,7 +17,15 @@
 //	            only QUIC layer is not built: QUIC announces a stream with its first STREAM frame, so streams can only be
 //	            told apart by protocol id, i.e. through the host.
 //
-// (tcpreuse's sampledconn lives in an internal package and is not covered: gap.)
+// Shared TCP (mux-* and host-* over TCP; drawn LAST so that earlier draws keep their meaning, in half of the runs): the
+// listening node runs the real TcpTransport.Listen with a tcpreuse.ConnMgr - demultiplexing listener and sampledconn, which
+// peeks the first three bytes of every inbound connection and must hand them back to the first Reads. Everything B reads
+// then passes sampledconn; the oracles are unchanged (security negotiation, handshake, muxer, identify and every stream
+// byte on top must not notice). Optionally the first deliveries to the listener are 1-3 bytes each (the peek meets short
+// reads), and 0-2 "sick dials" precede the real connection: raw connections that end inside or right after the peek (EOF
+// after 0/1/2 bytes, a reset at the listener's 1st-3rd I/O call, bytes of no known protocol, a header that stops) - see
+// sickDials. sampledconn is internal: only the read pattern the stack produces on it is reachable (multistream reads one
+// byte, then the rest of the token into a larger buffer; nobody reads the peeked bytes with a 2-byte buffer).
 //
 // One run: per (stream, direction) a writer task issues 0-5 writes (sizes biased to 0, 1, 65518-65520, 65535-65537,
 // 2x and 3x+1 Noise frames, the yamux window, a yamux frame that is exactly one maximal Noise frame -1/0/+1) and then
@@ -136,7 +144,7 @@
 //	M2'  noise Write: `total < MaxPlaintextLength` -> `<=` (buffer size branch)   equivalent (both branches give 65537 bytes), not run
 //	M3   noise Read: in-place path when len(buf) == frame-1                        2 s  read-wrote-past-buffer/noise, panic/noise (slice bounds)
 //	M3b  noise Read: in-place path when len(buf) >= plaintext-1 and cap allows     1 s  read-wrote-past-buffer/noise
-//	M4   sampledconn peeked bytes                                                  layer not covered (internal package)
+//	M4   sampledconn peeked bytes                                                  see T1-T3 below (shared-TCP path)
 //	M5a  streamWrapper.Write bypasses the lazy conn                                1 s  hang/host-tls, hang/host-noise
 //	M5b  streamWrapper.Read bypasses the lazy conn                                10 s  more-than-written/host-noise, /host-tls
 //	M6a  noise: nonce pinned on both sides (consistent reuse)                      8 s  wrong-bytes/noise/after-tamper, more-than-written/noise/after-tamper,
@@ -158,6 +166,12 @@
 //	Q3   swarm Stream.Write drops the error                                         30 s  short-write-without-error/host-quic (also host-noise, mux-tls, ... within seconds)
 //	Q4   quic glue Write reports (len(b), nil) when the Write failed                 MISSED: not observable (the connection is gone, the reader has an error; like M9)
 //	Q5   quic glue CloseWrite cancels the send side instead of closing it           19 s  hang/host-quic, incomplete/host-quic/read-reset
+//
+// Shared-TCP path (2026-09-27): all three within the first shared-TCP run (5 s), as fault-free-run-failed/<lay>/connect|dial:
+//
+//	T1   sampledconn.Read: bytesPeeked = 3 after any partial copy (peeked bytes dropped on a 1-byte read)
+//	T2   sampledconn.Read: the peeked bytes are handed out twice
+//	T3   sampledconn.Read: copy starts one byte too far
 //
 // Seeded by the lead (checked with VERIF_REPO=<worktree> ./check C02 quick, 8 workers):
 //
@@ -239,7 +253,8 @@ type world struct {
 	hung   bool
 	lazy   int
 
-	setupFail string // stage of the fault-free part that failed ("" = none)
+	setupFail string    // stage of the fault-free part that failed ("" = none)
+	sickNow   *sickPlan // the sick dial being made (read by the OnConn callback)
 
 	// QUIC layer
 	tapeS  *simrt.Stream
@@ -454,12 +469,37 @@ func (w *world) setupNodes() bool {
 	}
 	first := true
 	w.n.OnConn(func(d, l *simnet.Conn) {
+		if ta, ok := d.LocalAddr().(*net.TCPAddr); !ok || ta.IP.String() != "10.0.0.1" {
+			// a sick dial of the prelude (sickDials): the drawn reset lands inside or right after sampledconn's peek
+			if sp := w.sickNow; sp != nil {
+				l.SetMode(simnet.Tiny)
+				if sp.end == 2 {
+					l.InjectFault(simnet.Fault{Kind: simnet.Reset, AtCall: sp.k})
+				}
+			}
+			return
+		}
 		if !first {
 			return
 		}
 		first = false
 		w.rawA, w.rawB = d, l
 		w.installHook(d)
+		if p.sharedTCP && p.peekTiny {
+			// the first deliveries to the listener (the three peeked bytes and the beginning of the multistream
+			// negotiation, all of fixed length) arrive 1-3 bytes at a time; after a dozen I/O calls the set-up mode is back
+			l.SetMode(simnet.Tiny)
+			back := simnet.Fragment
+			if isTLSLayer(p.layer) {
+				back = simnet.Whole
+			}
+			l.SetOnCall(func(call int, _ bool) {
+				if call == 12 {
+					l.SetMode(back)
+					l.SetOnCall(nil)
+				}
+			})
+		}
 	})
 	host := isHostLayer(p.layer)
 	var err error
@@ -469,7 +509,7 @@ func (w *world) setupNodes() bool {
 		w.o.Trouble = "node A: " + err.Error()
 		return false
 	}
-	w.nodeB, err = simhost.New(w.n, simhost.Opts{Key: simhost.DetKey(2), IP: "10.0.0.2", Port: 4001, Security: secu, WithHost: host, QUIC: quic, NoTCPListen: quic})
+	w.nodeB, err = simhost.New(w.n, simhost.Opts{Key: simhost.DetKey(2), IP: "10.0.0.2", Port: 4001, Security: secu, WithHost: host, QUIC: quic, NoTCPListen: quic, SharedTCP: p.sharedTCP && !quic})
 	if err != nil {
 		w.o.Trouble = "node B: " + err.Error()
 		return false
@@ -491,6 +531,12 @@ func (w *world) setupNodes() bool {
 		a.PS.AddAddrs(b.ID, []ma.Multiaddr{b.QAddr}, peerstore.PermanentAddrTTL)
 	} else {
 		a.PS.AddAddrs(b.ID, []ma.Multiaddr{b.Addr}, peerstore.PermanentAddrTTL)
+	}
+	if p.sharedTCP && !quic {
+		w.probe("shared-tcp-listener")
+		if !w.sickDials() {
+			return false
+		}
 	}
 	ctx, cancel := context.WithTimeout(context.Background(), time.Minute)
 	defer cancel()
@@ -553,6 +599,51 @@ func (w *world) setupNodes() bool {
 	if w.rawA == nil {
 		w.o.Trouble = "no raw connection seen"
 		return false
+	}
+	return true
+}
+
+// sickDials (shared-TCP listener): raw connections to B's listen address that end inside or right after sampledconn's
+// three-byte peek - EOF after 0, 1 or 2 bytes, a reset, three or four bytes that are no known protocol, or the genuine
+// beginning of a multistream header and then nothing. None of it is a fault of the run: they are other peers' broken
+// connections; the listener has to drop them and the real connection that follows must not notice (every later oracle).
+func (w *world) sickDials() bool {
+	const hdr = "\x13/multistream/1.0.0\n"
+	for i := range w.p.sick {
+		sp := &w.p.sick[i]
+		w.sickNow = sp
+		ctx, cancel := context.WithTimeout(context.Background(), 10*time.Second)
+		c, err := w.n.Dialer("10.0.0.9").DialContext(ctx, "tcp", "10.0.0.2:4001")
+		cancel()
+		w.sickNow = nil
+		if err != nil {
+			w.failSetup("sick-dial", fmt.Sprintf("raw dial to the listener failed: %v", err))
+			return false
+		}
+		raw := c.(*simnet.Conn)
+		data := []byte(hdr[:sp.bytes])
+		if sp.garbage {
+			data = []byte("\x00\xfe\x7f\x01"[:sp.bytes])
+		}
+		if len(data) > 0 {
+			raw.Write(data)
+		}
+		simrt.WaitIdle()
+		switch sp.end {
+		case 0, 2:
+			raw.Close()
+		case 1:
+			raw.CloseWrite()
+			simrt.WaitIdle()
+			simrt.TimeSleep(50 * time.Millisecond)
+			raw.Close()
+		}
+		simrt.WaitIdle()
+		w.o.Logf("  sick dial %d: %d bytes (garbage=%v), end=%d k=%d; listener end closed=%v", i, sp.bytes, sp.garbage, sp.end, sp.k, raw.Peer().Stats().Closed)
+		if debug {
+			fmt.Fprintf(os.Stderr, "sick dial %d: %+v listener end: %+v\n", i, *sp, raw.Peer().Stats())
+		}
+		w.probe(fmt.Sprintf("sick-dial-%d-bytes", sp.bytes))
 	}
 	return true
 }
@@ -1047,7 +1138,7 @@ func (w *world) finish(res simrt.Result) {
 	faulted := advFired || stallFired || peerClosed || quicFaulted
 
 	var sig []string
-	sig = append(sig, lay, stratumName[p.stratum], modeName(p.mode), fmt.Sprintf("adv=%v stall=%v pc=%v hung=%v sac=%d ewd=%v fail=%s", advFired, stallFired, peerClosed, w.hung, len(p.sac), p.ewd, w.setupFail))
+	sig = append(sig, lay, stratumName[p.stratum], modeName(p.mode), fmt.Sprintf("shared=%v/%v/%d adv=%v stall=%v pc=%v hung=%v sac=%d ewd=%v fail=%s", p.sharedTCP, p.peekTiny, len(p.sick), advFired, stallFired, peerClosed, w.hung, len(p.sac), p.ewd, w.setupFail))
 	totalData := 0
 	judged := res.Panic == "" && o.Trouble == "" && w.setupFail == "" && !res.StepLimit && !res.Stuck && res.Deadlock == ""
 	for s := range w.chans {
